@@ -341,9 +341,7 @@ def expected_after(state, v, **opts):
     if before(18):
         c["proxy_mode"] = "regular"
     if before(19):
-        for x in (c, sv):
-            if not opts.get("with_transport_protocol"):
-                x["transport_protocol"] = "tcp"
+        # (connections without a transport_protocol entry are TCP: back_18 only drops the entry when it says "tcp")
         if c["timestamp_start"] is None:
             c["timestamp_start"] = 0.0
     if before((3, 0)):
